@@ -402,7 +402,11 @@ fn strip_unknown(ty: &Ty, pv: &PV) -> PV {
     // deepest first so that paths stay valid
     let mut ss = field_sites(ty, pv);
     ss.sort_by_key(|s| std::cmp::Reverse(s.0.len()));
-    for (path, fields, tag, _) in ss {
+    for (path, fields, tag, deny) in ss {
+        // only where nothing denies unknown fields
+        if !matches!(deny, Deny::No) {
+            continue;
+        }
         out = update_at(&out, &path, &mut |old| match old {
             PV::Map(m) => {
                 let mut tag_kept = false;
@@ -476,8 +480,9 @@ pub fn test_c09(reg: &Reg, case: &Case, stats: Option<&mut Stats>) -> Verdict {
             return Verdict::Violation("C09|unknown-key-value-consumed".into(), json!({"what": w, "history": hist(&c)}));
         }
     }
-    // metamorphic: where nothing denies unknown fields, extras have no influence whatsoever
-    if extras_present && !any_deny {
+    // metamorphic: at every site that does not deny unknown fields, extras have no influence whatsoever
+    let _ = any_deny;
+    if extras_present {
         let base = strip_unknown(&e.ty, &c.seen);
         if base != c.seen {
             let out_b = (e.rec)(&base, src, &Script::all_continue());
@@ -487,7 +492,7 @@ pub fn test_c09(reg: &Reg, case: &Case, stats: Option<&mut Stats>) -> Verdict {
                 return Verdict::Violation(
                     "C09|unknown-keys-influence-outcome".into(),
                     json!({"what": "removing the unknown keys changed the value or the reports although nothing denies unknown fields",
-                           "with_extras": c.seen.show(), "without_extras": base.show(), "outcome_with": format!("{a:?}"), "outcome_without": format!("{b:?}")}),
+                           "with_extras": c.seen.show(), "without_the_extras_at_non_denying_sites": base.show(), "outcome_with": format!("{a:?}"), "outcome_without": format!("{b:?}")}),
                 );
             }
         }
